@@ -193,6 +193,26 @@ def check(program: Program, run: Run) -> None:
                 qualifier_conds = [conds for part, conds, _ in walk_parts(_inner_str(hv)) if isinstance(part, Hole) and "get_table_name" in show(part.value)]
                 covers = bool(qualifier_conds) and all(not any(".alias" in show(cd, -20) or "with_namespace" in show(cd, -20) for cd in conds) for conds in qualifier_conds)
                 is_bool = covers
+                if covers:
+                    # ... and the parts must stay apart: table and column are hashed as delimited identifiers, otherwise
+                    # ("c", "id") and (None, "c.id") render to the same text and are merged
+                    from ..skel import quoted_spans
+                    from .c06 import paths as _paths
+                    from .c07 import name_holes
+                    undelimited = []
+                    for flat in _paths(_inner_str(hv), limit=64):
+                        spans = quoted_spans(flat)
+                        for i_, a_, s_ in name_holes(flat):
+                            if a_ in ("name", "_table_name") and not any(sp[0] < i_ < sp[1] for sp in spans):
+                                undelimited.append(s_)
+                    if undelimited:
+                        is_bool = False
+                        run.ob("C17/R2 objects de-duplicated through a set have a bool __eq__ (or a hash that separates every distinct reference)", f"{f.qualname}: set of {elem.qualname}", False, where=f.loc(n))
+                        run.finding(f"C17/hash-not-injective:{elem.qualname}",
+                                    f"{elem.qualname} objects are de-duplicated by hash alone ({ef.qualname} is always truthy), but {hf.qualname} hashes `{undelimited[0]}` without identifier delimiters "
+                                    "(empty quote character in the context it renders with): the references (table 'c', column 'id') and (no table, column 'c.id') hash alike and are merged",
+                                    where=hf.loc(), rule="R2")
+                        continue
             run.ob("C17/R2 objects de-duplicated through a set have a bool __eq__ (or a hash that separates every distinct reference)", f"{f.qualname}: set of {elem.qualname}", is_bool, where=f.loc(n))
             if not is_bool:
                 run.finding(f"C17/non-bool-eq-in-set:{elem.qualname}",
